@@ -24,7 +24,7 @@ PID = 'C20'
 
 # repairs present in /repo (fix: commits); the specification's clauses for them are switched on.
 # VERIF_C20_FIXES=F20a,F20b overrides (testing a repaired scratch copy together with VERIF_REPO_SRC).
-FIXES = ["F20a", "F20b", "F20c", "F20d"]     # repaired in /repo (fix: commits e88cbf8, 8bcae22, ef78463, f04633c)
+FIXES = ["F20a", "F20b", "F20c", "F20d", "F20e"]     # repaired in /repo (fix: commits e88cbf8, 8bcae22, ef78463, f04633c)
 if os.environ.get('VERIF_C20_FIXES') is not None:
     FIXES = [x for x in os.environ['VERIF_C20_FIXES'].replace(' ', '').split(',') if x]
 
@@ -37,7 +37,7 @@ INVARIANTS = ['Faithful', 'ExactlyOnce', 'ActionOnce', 'FilteredIsSilent', 'OnTa
 # kiwipy.capture_exceptions(self) -> self.set_exception(e) on the cancelled action -> asyncio.InvalidStateError is thrown
 # at the caller of run() instead of the outcome (the cancellation) being carried by the action.  The specification has the
 # clause (deviation D20e / repair F20e in ActRun); True adds the scenario ACT/raise/wd and the check then reports it.
-ACT_WITHDRAW_THEN_RAISE = os.environ.get('VERIF_C20_ACT_WITHDRAW_THEN_RAISE', '') == '1'
+ACT_WITHDRAW_THEN_RAISE = os.environ.get('VERIF_C20_ACT_WITHDRAW_THEN_RAISE', '1') == '1'      # (repaired in /repo: F20e)
 PROPERTIES = ['Stable']
 
 
